@@ -85,7 +85,7 @@ def main():
     f = os.path.join(ctx.scratch, 'selftest.cli')
     vlib.write_ndjson(f, [r[2] for r in rows])
     scen = [{'id': i + 1, 'steps': []} for i in range(len(rows))]
-    bad = cliprop.judge(ctx, scen, f, {'C02', 'C07', 'C11', 'C12', 'C14', 'C18', 'C20'})
+    bad = cliprop.judge(ctx, scen, f, {'C02', 'C07', 'C11', 'C12', 'C14', 'C18', 'C20'}, confirm=False)
     for i, (name, want, _) in enumerate(rows):
         got = bad.get(i + 1, [])
         good_ = (want is None and not got) or (want is not None and any(c.startswith(want) for c in got))
